@@ -87,6 +87,9 @@ func c18Letters(limit int) []c18Letter {
 		c18Letter{fmt.Sprintf("COPY%v", copyB), burst(copyB, 53)},
 		c18Letter{fmt.Sprintf("Parse+Bind%v+Execute+Sync", bindA), batch(bindA, 56)},
 		c18Letter{fmt.Sprintf("Parse+Bind%v+Execute+Sync", bindB), batch(bindB, 57)},
+		// the unnamed statement / portal bound again and again (1 or 2 values)
+		c18Letter{"unnamed Parse+Bind[20]+Execute+Sync", pgproto.Cat(pgproto.Parse("", "later"), pgproto.Bind("", "", nil, [][]byte{filler(20, 62)}, nil), pgproto.Execute("", 0), pgproto.Sync())},
+		c18Letter{"unnamed Parse+Bind[30 10]+Execute+Sync", pgproto.Cat(pgproto.Parse("", "later"), pgproto.Bind("", "", nil, [][]byte{filler(30, 63), filler(10, 64)}, nil), pgproto.Execute("", 0), pgproto.Sync())},
 		// the names whose values were retained are released / replaced: what was handed out stays untouched
 		c18Letter{"Close(portal keep)+Sync", pgproto.Cat(pgproto.Close('P', "keep"), pgproto.Sync())},
 		c18Letter{"Close(statement keep)+Sync", pgproto.Cat(pgproto.Close('S', "keep"), pgproto.Sync())},
@@ -97,13 +100,15 @@ func c18Letters(limit int) []c18Letter {
 }
 
 type c18Kept struct {
-	what   string
-	s      *string
-	b      []byte
-	m      wire.Parameters
-	cloneS string
-	cloneB []byte
-	cloneM [][2]string
+	what    string
+	s       *string
+	b       []byte
+	m       wire.Parameters
+	ps      []wire.Parameter // the parameter list itself as handed to a statement function
+	clonePs [][]byte
+	cloneS  string
+	cloneB  []byte
+	cloneM  [][2]string
 }
 
 type c18State struct {
@@ -120,6 +125,14 @@ func (st *c18State) keepBytes(what string, b []byte) {
 	st.kept = append(st.kept, &c18Kept{what: what, b: b, cloneB: bytes.Clone(b)})
 }
 
+func (st *c18State) keepParams(what string, ps []wire.Parameter) {
+	k := &c18Kept{what: what, ps: ps}
+	for _, p := range ps {
+		k.clonePs = append(k.clonePs, bytes.Clone(p.Value()))
+	}
+	st.kept = append(st.kept, k)
+}
+
 func (st *c18State) keepMap(what string, m wire.Parameters) {
 	k := &c18Kept{what: what, m: m}
 	for key, v := range m {
@@ -132,6 +145,12 @@ func (st *c18State) keepMap(what string, m wire.Parameters) {
 func (st *c18State) check() string {
 	for _, k := range st.kept {
 		switch {
+		case k.ps != nil:
+			for i, p := range k.ps {
+				if !bytes.Equal(p.Value(), k.clonePs[i]) {
+					return fmt.Sprintf("%s: entry %d of the parameter list changed from %q to %q", k.what, i, clip(string(k.clonePs[i])), clip(string(p.Value())))
+				}
+			}
 		case k.s != nil:
 			if *k.s != k.cloneS {
 				return fmt.Sprintf("%s changed from %q to %q", k.what, clip(k.cloneS), clip(*k.s))
@@ -210,6 +229,9 @@ func c18Run(limit int, hist []c18Letter) explore.Result {
 			}
 			for i, p := range params {
 				st.keepBytes(fmt.Sprintf("bind parameter %d of %s", i, clip(q)), p.Value())
+			}
+			if len(params) > 0 {
+				st.keepParams("parameter list of "+clip(q), params)
 			}
 			return w.Complete("OK")
 		})), nil
@@ -296,7 +318,7 @@ func init() {
 		ID:          "C18",
 		Level:       "model_checking",
 		Technique:   "exhaustive enumeration of later-traffic histories over message sizes around the 4 KiB allocation granule and the message limit, on a real server whose callbacks retain (without copying) everything they were handed next to a private clone; invariant checked after every message",
-		Rule:        "first phase retains startup parameters (validator + parser), database / user / password, a Query text, a Parse text and two Bind values; then every history of length <= d over 21 (limit 8192) / 20 (limit 1024, below the 4 KiB allocation granule) letters: Query bodies around the granule and the limit, oversized-and-skipped messages of several sizes, two COPY bursts (incl. an oversized CopyData), two Bind batches, Close of the portals / statements whose values were retained, re-definition of those names",
+		Rule:        "first phase retains startup parameters (validator + parser), database / user / password, a Query text, a Parse text and two Bind values; then every history of length <= d over 23 (limit 8192) / 22 (limit 1024, below the 4 KiB allocation granule) letters: Query bodies around the granule and the limit, oversized-and-skipped messages of several sizes, two COPY bursts (incl. an oversized CopyData), two Bind batches, two batches on the unnamed statement / portal (the parameter LIST handed to the statement function is retained as well), Close of the portals / statements whose values were retained, re-definition of those names",
 		Assumptions: []string{"CopyData payload views are not retained: the statement lists query texts, parameter values, client parameters and passwords"},
 		Enumerate:   c18Enumerate,
 		Bounds: func(tier string) map[string]any {
